@@ -49,6 +49,8 @@ ObsMatch(s, o, cmploc) ==
      /\ (s.st = "err" /\ s.kind = "TaskFailure" /\ s.task.name # "") =>
           /\ o.task.name = s.task.name
           /\ s.task.params # {} => (o.task.inner = "InvalidArgument" /\ o.task.param \in s.task.params)
+          \* ... and the error it wraps: the failure of a host function it called is a task failure of that function
+          /\ (s.task.params = {} /\ s.task.inner \in NamedKinds) => o.task.inner = s.task.inner
      /\ (cmploc /\ s.st = "err") =>
           /\ o.trace # <<>> /\ SameLoc(s.at, o.trace[1])
           \* the call chain innermost first; the crate may append the program entry
